@@ -83,6 +83,7 @@ def eigh(x, **kw):
   dd[v.tags["f"].name()] = (x, nb)
   cur().axioms_used.add("eigh: eigenvalues ascending, real; batched over leading axes")
   cur().ghost["last_eigh"] = (w, v)
+  cur().ghost.setdefault("eighs", []).append((x, w, v))
   return w, v
 
 
